@@ -8,5 +8,5 @@ CONSTANTS
   X0 = 4096
   Starts = {TRUE, FALSE}
 VIEW View
-CHECK_DEADLOCK TRUE
 INVARIANT MomentumAtEndPoint
+CHECK_DEADLOCK TRUE
